@@ -19,13 +19,19 @@ Every statement quantifies over all widths `1 ≤ w ≤ 64`, all intervals of th
 members.
 
 Proved for all widths: the specification of `at`, soundness of `<=`, `|` (upper bound), `&`
-(keeps the common members), `+`, binary `-`, unary `-`.
-Violated by the code as it is (found by the exhaustive run at widths 3 and 4 and the random
-run, reproduced here by `decide` on the model, which agrees with the code on every one of the
-1.5 million cases of the complete tables): `*`, `UDiv`, the widening `||`:
-`_Statement` / `_partial` / `_counterexample` below.
-Only tested (sound on everything explored): `SDiv`, `Shl/LShr/AShr`, `ZExt/SExt/Trunc`,
-`to_interval`, half lines, `trim_interval`, `mk_winterval`.
+(keeps the common members), the widening `||` (upper bound of both operands), `+`, binary `-`,
+unary `-`, `UDiv` (all the way through `unsigned_split`, `trim_zero`, `unsigned_div` and the
+three nested loops).
+Only tested (sound on everything explored: the complete tables of every operation over every
+pair of intervals of width 3 and 4, 1.14 million cases, and random cases at every width
+1..64; the model agrees with the code on all of them): `*`, `SDiv`, `Shl/LShr/AShr`,
+`ZExt/SExt/Trunc`, `to_interval`, half lines, `trim_interval`, `mk_winterval`.  For `*` only the
+trivial case is stated below (`_partial`).
+
+State of the code: after the fixes to `signed_mul` (overflow tests on signed values), `UDiv`
+(`unsigned_split`), the widening (third case guarded by `*this <= x`) — before them `*`, `UDiv`
+and `||` lost members (`[5,5]*[5,3]` at width 3, `[2,0]/u[2,0]` at width 2, `[53,64] || [61,54]`
+at width 7); the examples at the end check the repaired answers.
 -/
 open Crab Crab.WInt Crab.WrapInt
 
@@ -114,68 +120,20 @@ theorem C13.wint_arith_bottom_top (x y : WInt) :
   · intro hx hy h
     rcases h with h | h <;> simp [WInt.add, WInt.sub, hx, hy, h]
 
-/-! ## statements violated by the code as it is -/
+/-! ## widening -/
 
-/-- the widening is an upper bound of its operands -/
-def C13.wint_widen_Statement : Prop :=
-  ∀ (w : Nat), 1 ≤ w → w ≤ 64 → ∀ (x y r : WInt), Shape w x → Shape w y → x.widen y = some r →
-    ∀ v : BitVec w, memBV v x ∨ memBV v y → memBV v r
-/-- it holds on the paths that do not extrapolate (an operand bottom, or `y <= x`) -/
-theorem C13.wint_widen_partial (w : Nat) (hw : w ≤ 64) (x y r : WInt) (hx : Shape w x) (hy : Shape w y)
-    (hex : x.isBottom = true ∨ y.isBottom = true ∨
-           (x.isTop = false ∧ y.isTop = false ∧ y.leq x = true))
-    (h : x.widen y = some r) (v : BitVec w) (hv : memBV v x ∨ memBV v y) : memBV v r := by
-  unfold WInt.widen at h
-  rcases hex with hb | hb | ⟨t1, t2, hl⟩
-  · simp only [hb, if_true, Option.some.injEq] at h
-    subst h
-    rcases hv with hv | hv
-    · exact absurd hv (mem_bottom_false hb)
-    · exact hv
-  · cases hxb : x.isBottom
-    · simp only [hxb, hb, Bool.false_eq_true, if_false, if_true, Option.some.injEq] at h
-      subst h
-      rcases hv with hv | hv
-      · exact hv
-      · exact absurd hv (mem_bottom_false hb)
-    · simp only [hxb, if_true, Option.some.injEq] at h
-      subst h
-      rcases hv with hv | hv
-      · exact absurd hv (mem_bottom_false hxb)
-      · exact hv
-  · cases hxb : x.isBottom
-    · cases hyb : y.isBottom
-      · simp only [hxb, hyb, t1, t2, hl, Bool.false_eq_true, if_false, if_true, Bool.or_self,
-          Option.some.injEq] at h
-        subst h
-        rcases hv with hv | hv
-        · exact hv
-        · exact leq_sound hw hy hx v.isLt hl hv
-      · simp only [hxb, hyb, Bool.false_eq_true, if_false, if_true, Option.some.injEq] at h
-        subst h
-        rcases hv with hv | hv
-        · exact hv
-        · exact absurd hv (mem_bottom_false hyb)
-    · simp only [hxb, if_true, Option.some.injEq] at h
-      subst h
-      rcases hv with hv | hv
-      · exact absurd hv (mem_bottom_false hxb)
-      · exact hv
-/-- width 7: `[53,64] || [61,54]` returns `[61,54]`, which does not contain `55 ∈ [53,64]`
-    (third branch of `operator||`: both ends of the old interval lie in the new one, but the
-    old interval covers the gap of the new one; the join computed just before is top) -/
-theorem C13.wint_widen_counterexample : ¬ C13.wint_widen_Statement := by
-  intro h
-  have := h 7 (by decide) (by decide) (W 7 53 64 false) (W 7 61 54 false) (W 7 61 54 false)
-    (by decide) (by decide) (by decide) 55#7 (Or.inl (by decide))
-  revert this
-  decide
+/-- the widening is an upper bound of both operands -/
+theorem C13.wint_widen_upper (w : Nat) (hw : w ≤ 64) (x y : WInt) (hx : Shape w x) (hy : Shape w y)
+    (v : BitVec w) (hv : memBV v x ∨ memBV v y) : memBV v (x.widen y) :=
+  widen_sound hw hx hy v.isLt hv
 
-/-- multiplication over-approximates the products modulo 2^w -/
+/-! ## multiplication (trivial case only, the rest is tested) and unsigned division -/
+
+/-- multiplication over-approximates the products modulo 2^w: not proved in general -/
 def C13.wint_mul_Statement : Prop :=
   ∀ (w : Nat), 1 ≤ w → w ≤ 64 → ∀ (x y r : WInt), Shape w x → Shape w y → x.mul y = some r →
     ∀ a b : BitVec w, memBV a x → memBV b y → memBV (a * b) r
-/-- it holds trivially when an operand is top (the result is top) -/
+/-- it holds when an operand is top (the result is top) -/
 theorem C13.wint_mul_partial (w : Nat) (x y r : WInt)
     (hex : x.isBottom = false ∧ y.isBottom = false ∧ (x.isTop = true ∨ y.isTop = true))
     (h : x.mul y = some r) (v : BitVec w) : memBV v r := by
@@ -186,39 +144,24 @@ theorem C13.wint_mul_partial (w : Nat) (x y r : WInt)
   injection h with h
   subst h
   exact mem_top w _
-/-- width 3: `[5,5] * [5,3]` returns `[3,1]`, but `5 * 2 = 10 = 2 (mod 8)` is not in it
-    (`signed_mul` tests the overflow on the *unsigned* readings of negative bounds: for the cut
-    `[5,5] x [0,3]` it computes `5*0 - 5*3 = -15 < 7` and answers `[7,0]`) -/
-theorem C13.wint_mul_counterexample : ¬ C13.wint_mul_Statement := by
-  intro h
-  have := h 3 (by decide) (by decide) (W 3 5 5 false) (W 3 5 3 false) (W 3 3 1 false)
-    (by decide) (by decide) (by decide) 5#3 2#3 (by decide) (by decide)
-  revert this
-  decide
 
-/-- unsigned division over-approximates the quotients (divisor ≠ 0) -/
-def C13.wint_udiv_Statement : Prop :=
-  ∀ (w : Nat), 1 ≤ w → w ≤ 64 → ∀ (x y r : WInt), Shape w x → Shape w y → x.udiv y = some r →
-    ∀ a b : BitVec w, memBV a x → memBV b y → b ≠ 0 → memBV (a / b) r
-theorem C13.wint_udiv_partial (w : Nat) (x y r : WInt)
-    (hex : x.isBottom = false ∧ y.isBottom = false ∧ (x.isTop = true ∨ y.isTop = true))
-    (h : x.udiv y = some r) (v : BitVec w) : memBV v r := by
-  obtain ⟨hx, hy, ht⟩ := hex
-  have : x.udiv y = some WInt.top := by
-    rcases ht with ht | ht <;> simp [WInt.udiv, hx, hy, ht]
-  rw [this] at h
-  injection h with h
-  subst h
-  exact mem_top w _
-/-- width 2: `[2,0] /u [2,0]` returns `[0,0]`, but `2 / 2 = 1`
-    (`UDiv` cuts its operands at the north pole with `signed_split`; an interval that crosses
-    the south pole, where the unsigned order wraps, reaches `unsigned_div` uncut) -/
-theorem C13.wint_udiv_counterexample : ¬ C13.wint_udiv_Statement := by
-  intro h
-  have := h 2 (by decide) (by decide) (W 2 2 0 false) (W 2 2 0 false) (W 2 0 0 false)
-    (by decide) (by decide) (by decide) 2#2 2#2 (by decide) (by decide) (by decide)
-  revert this
-  decide
+/-- `UDiv` over-approximates the unsigned quotients (divisor ≠ 0; a zero divisor has no
+    quotient), whenever it returns a value (`none` = CRAB_ERROR, never observed) -/
+theorem C13.wint_udiv_sound (w : Nat) (h1 : 1 ≤ w) (hw : w ≤ 64) (x y r : WInt)
+    (hx : Shape w x) (hy : Shape w y) (h : x.udiv y = some r)
+    (a b : BitVec w) (ha : memBV a x) (hb : memBV b y) (hb0 : b ≠ 0) : memBV (a / b) r := by
+  have hb1 : 1 ≤ b.toNat := by
+    rcases Nat.eq_zero_or_pos b.toNat with h0 | h0
+    · exact absurd (BitVec.eq_of_toNat_eq (by simpa using h0)) hb0
+    · exact h0
+  unfold memBV
+  rw [BitVec.toNat_udiv]
+  exact udiv_sound h1 hw hx hy h a.isLt b.isLt hb1 ha hb
+
+/-- the inputs that used to lose members, on the repaired code -/
+example : (W 3 5 5 false).mul (W 3 5 3 false) = some WInt.top ∧
+    (W 2 2 0 false).udiv (W 2 2 0 false) = some (W 2 0 1 false) ∧
+    ((W 7 53 64 false).widen (W 7 61 54 false)).isTop = true := by decide
 
 /-- non-vacuity: intervals crossing the poles with concrete members, and the operations on them -/
 example : Shape 8 (W 8 250 3 false) ∧ Shape 8 (W 8 120 130 false) ∧
